@@ -45,7 +45,7 @@ THEOREMS = [
 # the statuses the documentation calls "available for run" (usage_guide/invocation_status.md; C01 ties the table to it)
 AVAILABLE = {"registered", "rerouted", "retry"}
 NONFINAL = ["registered", "pending", "running", "rerouted", "retry", "paused", "killed"]
-FINALS = ["success", "failed"]
+FINALS = ["success", "failed", "concurrency_controlled_final"]   # every final status: also the one concurrency control gives a refused invocation
 LIMITS = [-1, 0, 1, 2, 3, 99]
 
 
@@ -108,7 +108,11 @@ class Backend:
                     raise
         elif k == "F":
             # the lifecycle way: RUNNING (owned by rA) -> final status through set_invocation_status
-            inject_status(self.app, self.ids[op[1]], self.S.RUNNING, "rA", 0)
+            if op[2] == "concurrency_controlled_final":
+                # the way a poll finishes an invocation concurrency control refuses: from an available status, by the polling runner
+                inject_status(self.app, self.ids[op[1]], self.S.REGISTERED, None, 0)
+            else:
+                inject_status(self.app, self.ids[op[1]], self.S.RUNNING, "rA", 0)
             self.o_fin.set_invocation_status(self.ids[op[1]], self.S(op[2]), rctx("rA"))
         else:
             raise ValueError(op)
